@@ -81,7 +81,7 @@ class Verifier(QuantMixin, LoopMixin, ExprMixin, CallMixin, StmtMixin, BuiltinsM
         self.depth = 0
         self.quant_reset()
         self.container_elem_type = {}
-        self.st.ghost['trace'] = z3.Const('G_trace', smt.SeqV)
+        self.trace_init()
 
     # ==================================================================================== type specs
     def resolve_class(self, q: str) -> ClassInfo:
@@ -123,6 +123,12 @@ class Verifier(QuantMixin, LoopMixin, ExprMixin, CallMixin, StmtMixin, BuiltinsM
             return z3.Or(Val.is_int(v), Val.is_flt(v))
         if spec == 'none':
             return Val.is_none(v)
+        if spec == 'encodable':
+            # A-user: "registered methods return JSON-encodable values": in particular never the UNSET marker
+            U = self.resolve_class('pjrpc.common.common:UnsetType')
+            self.use_class(U)
+            f = z3.Function('uf_encodable', Val, z3.BoolSort())
+            return z3.And(f(v), z3.Not(z3.And(Val.is_ref(v), smt.cls_of(Val.r(v)) == U.cid)))
         if spec == 'callable':
             spec = '=UserCallable'
         if spec == 'object':
@@ -236,6 +242,57 @@ class Verifier(QuantMixin, LoopMixin, ExprMixin, CallMixin, StmtMixin, BuiltinsM
         v = self.ev(e.args[0], fr)
         return smt.simp(Val.str(smt.pystr(v)))
 
+    def prim_bound_method(self, e, fr):
+        """bound_method(obj, 'name'): the bound method object obj.name (as a value that can be compared / called)"""
+        obj = self.ev(e.args[0], fr)
+        name = ast.literal_eval(e.args[1])
+        ck = ('bm', smt.simp(obj).get_id(), name)
+        if ck in self.global_cache:
+            return self.global_cache[ck]
+        c = self.require_class(obj, 'bound_method receiver')
+        lk = c.lookup(name)
+        if lk is None or lk[0] != 'method':
+            self.unsupported(f'bound_method: {c.name}.{name} is not a method')
+        # group by implementation if subclasses override
+        groups = self.member_groups(c, name)
+        vals = []
+        for key, (ent, ks) in groups.items():
+            if ent is None or ent[0] != 'method':
+                continue
+            vals.append((ks, self.static_val(BoundMethod(obj, self.method_target(ent[1])))))
+        if len(vals) == 1:
+            v = vals[0][1]
+        else:
+            r = Val.r(obj)
+            v = vals[-1][1]
+            for ks, bv in vals[:-1]:
+                for kk in ks:
+                    self.use_class(kk)
+                v = z3.If(z3.Or(*[smt.cls_of(r) == kk.cid for kk in ks]), bv, v)
+            v = smt.simp(v)
+        for _, bv in vals:
+            self.callable_candidates.append(bv)
+        self.global_cache[ck] = v
+        return v
+
+    def prim_at_entry(self, e, fr):
+        """at_entry(expr): value of expr when the innermost enclosing loop was entered"""
+        ent = getattr(self, 'loop_entry', None)
+        if not ent:
+            self.unsupported('at_entry() outside a loop invariant', e)
+        st0, locals0 = ent[-1]
+        cur = self.st.snapshot()
+        self.st.restore(st0)
+        sub = Frame(fr.func, fr.module, parent=None, cls=fr.cls)
+        sub.is_spec = True
+        sub.locals.update(locals0)
+        for k, v in fr.locals.items():
+            sub.locals.setdefault(k, v)
+        try:
+            return self.ev(e.args[0], sub)
+        finally:
+            self.st.restore(cur)
+
     def prim_uf(self, e, fr):
         """uf('name', a, b, ...): uninterpreted spec predicate over values (a dependency's semantics)"""
         name = ast.literal_eval(e.args[0])
@@ -250,12 +307,81 @@ class Verifier(QuantMixin, LoopMixin, ExprMixin, CallMixin, StmtMixin, BuiltinsM
         f = z3.Function(f'ufv_{name}', *([Val] * len(args)), Val)
         return f(*args)
 
-    def prim_trace(self, e, fr):
-        """ghost: the sequence of calls made to abstract user callables so far; each event is a tuple
-        (callee, args tuple, kwargs dict)"""
-        t = self.alloc(builtin_class('tuple'))
-        self.set_seq(t, self.st.ghost['trace'])
-        return t
+    # ---- ghost call trace: parallel arrays indexed by event number (DESIGN 3.2 "ghost state")
+    TRACE_FIELDS = ('kind', 'callee', 'args', 'kwargs', 'outcome', 'value')
+
+    def trace_init(self) -> None:
+        n = z3.Const('G_tr_len', smt.I)
+        self.st.ghost['tr_len'] = n
+        self._add_axiom(n >= 0)
+        for f in self.TRACE_FIELDS:
+            self.st.ghost['tr_' + f] = z3.Array('G_tr_' + f, smt.I, Val)
+        self.trace_parent: Dict[int, Tuple[Any, Any]] = {}
+
+    def havoc_ghost(self, g: str) -> None:
+        """the callee / loop may have appended events: the length grows by d >= 0, earlier events are
+        unchanged (prefix axioms are instantiated where events are read)"""
+        if g != 'trace':
+            raise Unsupported(f'unknown ghost {g}')
+        old_len = self.st.ghost['tr_len']
+        d = self.fresh('tr_d', smt.I)
+        self._add_axiom(d >= 0)
+        self.st.ghost['tr_len'] = smt.simp(old_len + d)
+        for f in self.TRACE_FIELDS:
+            old_arr = self.st.ghost['tr_' + f]
+            new_arr = self.fresh('tr_' + f, z3.ArraySort(smt.I, Val))
+            self.trace_parent[new_arr.get_id()] = (old_arr, old_len)
+            self.st.ghost['tr_' + f] = new_arr
+
+    def trace_read(self, f: str, i):
+        arr = self.st.ghost['tr_' + f]
+        v = smt.simp(z3.Select(arr, i))
+        # prefix preservation down the havoc chain
+        cur = arr
+        for _ in range(32):
+            while z3.is_app(cur) and cur.decl().kind() == z3.Z3_OP_STORE:
+                cur = cur.arg(0)
+            par = self.trace_parent.get(cur.get_id())
+            if par is None:
+                break
+            parr, plen = par
+            self._add_axiom(z3.Implies(z3.And(i >= 0, i < plen), z3.Select(cur, i) == z3.Select(parr, i)))
+            cur = parr
+        n = self.st.ghost['tr_len']
+        inr = z3.And(i >= 0, i < n)
+        if f in ('kind', 'outcome'):
+            self._add_axiom(z3.Implies(inr, Val.is_str(v)))
+            self.kind_hint.setdefault(v.get_id(), 'str')
+        else:
+            self.bound_ref(v)
+        if f == 'outcome':
+            self._add_axiom(z3.Implies(inr, z3.Or(v == smt.mk_str('ret'), v == smt.mk_str('raise'))))
+        return v
+
+    def prim_tlen(self, e, fr):
+        return smt.simp(Val.int(self.st.ghost['tr_len']))
+
+    def _trace_prim(self, f, e, fr):
+        i = self.ev(e.args[0], fr)
+        return self.trace_read(f, smt.int_of(i))
+
+    def prim_ev_kind(self, e, fr):
+        return self._trace_prim('kind', e, fr)
+
+    def prim_ev_callee(self, e, fr):
+        return self._trace_prim('callee', e, fr)
+
+    def prim_ev_args(self, e, fr):
+        return self._trace_prim('args', e, fr)
+
+    def prim_ev_kwargs(self, e, fr):
+        return self._trace_prim('kwargs', e, fr)
+
+    def prim_ev_outcome(self, e, fr):
+        return self._trace_prim('outcome', e, fr)
+
+    def prim_ev_value(self, e, fr):
+        return self._trace_prim('value', e, fr)
 
     # ==================================================================================== oracles
     def oracle_hook(self, fv, args, kwargs, star, dstar, node=None):
@@ -277,9 +403,29 @@ class Verifier(QuantMixin, LoopMixin, ExprMixin, CallMixin, StmtMixin, BuiltinsM
             kd = self.mk_dict([(smt.mk_str(k), v) for k, v in kwargs.items()])
         return self.oracle_outcome(spec, 'call', fv, at, kd)
 
+    def bi_asyncio_iscoroutine(self, args, kwargs):
+        f = z3.Function('is_coro', Val, z3.BoolSort())
+        return self.to_val_bool(f(args[0]))
+
+    def await_hook(self, v):
+        """await-erasure: library coroutines were evaluated at the call; a coroutine produced by an abstract
+        user callable is resolved here (second event, same user contract)"""
+        f = z3.Function('is_coro', Val, z3.BoolSort())
+        if smt.static_id(v) is not None or smt.tag_of(v) in ('none', 'bool', 'int', 'flt', 'str'):
+            return v
+        if not smt.simp(v).decl().name().startswith('orc!'):
+            return v
+        if not self.branch(f(v)):
+            return v
+        spec = self.oracles.get('UserMethod', {'returns': 'any', 'raises': ('Exception',)})
+        return self.oracle_outcome(spec, 'await', v, self.mk_tuple([]), self.mk_dict([]))
+
     def record_event(self, kind: str, fv, at, kd, outcome: str, value) -> None:
-        evt = self.mk_tuple([smt.mk_str(kind), fv, at, kd, smt.mk_str(outcome), value])
-        self.st.ghost['trace'] = smt.simp(z3.Concat(self.st.ghost['trace'], z3.Unit(evt)))
+        n = self.st.ghost['tr_len']
+        vals = dict(kind=smt.mk_str(kind), callee=fv, args=at, kwargs=kd, outcome=smt.mk_str(outcome), value=value)
+        for f in self.TRACE_FIELDS:
+            self.st.ghost['tr_' + f] = z3.Store(self.st.ghost['tr_' + f], n, vals[f])
+        self.st.ghost['tr_len'] = smt.simp(n + 1)
 
     def oracle_outcome(self, spec, kind: str, fv, at, kd):
         raises = list(spec.get('raises', ()))
@@ -287,6 +433,7 @@ class Verifier(QuantMixin, LoopMixin, ExprMixin, CallMixin, StmtMixin, BuiltinsM
         if k == 0:
             res = self.fresh('orc')
             self.bound_ref(res)
+            self._add_axiom(res != smt.ABSENT)
             self.assume_type(res, spec.get('returns', 'any'))
             self.record_event(kind, fv, at, kd, 'ret', res)
             return res
@@ -347,6 +494,14 @@ class Verifier(QuantMixin, LoopMixin, ExprMixin, CallMixin, StmtMixin, BuiltinsM
                 self.oblige('requires@callee', f'{where}: {p} is {q}', env[p] == self.pin_val(q), ct.props)
         for rq in ct.requires:
             self.oblige('requires@callee', f'{where}: {rq.name}', self.clause_holds(rq, env), ct.props)
+        saved_old = self.old
+        self.old = self.st.snapshot()          # old() inside the callee's clauses = state before this call
+        try:
+            return self._apply_contract_outcome(ct, fi, env)
+        finally:
+            self.old = saved_old
+
+    def _apply_contract_outcome(self, ct: Contract, fi: FuncInfo, env: Dict[str, Any]):
         self.havoc_modifies(ct, env)
         # outcome
         raises = list(ct.raises_only)
@@ -386,6 +541,7 @@ class Verifier(QuantMixin, LoopMixin, ExprMixin, CallMixin, StmtMixin, BuiltinsM
         else:
             res = self.fresh('res')
             self.bound_ref(res)
+            self._add_axiom(res != smt.ABSENT)
             if ct.result_type:
                 self.assume_type(res, ct.result_type)
         env2 = dict(env)
@@ -424,6 +580,9 @@ class Verifier(QuantMixin, LoopMixin, ExprMixin, CallMixin, StmtMixin, BuiltinsM
 
     def havoc_location(self, loc: str, env: Dict[str, Any]) -> None:
         """loc: 'param.attr' (attribute cell) | '$seq(param.attr)' | '$dict(param.attr)' contents"""
+        if loc.startswith('$') and '(' not in loc:
+            self.havoc_ghost(loc[1:])
+            return
         kind = 'attr'
         expr = loc
         if loc.startswith('$seq(') or loc.startswith('$dict('):
@@ -473,14 +632,16 @@ class Verifier(QuantMixin, LoopMixin, ExprMixin, CallMixin, StmtMixin, BuiltinsM
             else:
                 v = z3.Const(f'p_{name}', Val)
                 self.bound_ref(v)
+                self._add_axiom(v != smt.ABSENT)
             vals[name] = v
             return v
 
         pos = a.posonlyargs + a.args
         for i, p in enumerate(pos):
             v = mk(p.arg)
-            if i == 0 and fi.cls is not None and fi.kind in ('method', 'property') and p.arg not in ct.types:
+            if i == 0 and fi.cls is not None and fi.kind in ('method', 'property'):
                 self.assume_type(v, fi.cls.qualname)
+                self.hint_cls[smt.simp(v).get_id()] = fi.cls
             if i == 0 and fi.cls is not None and fi.kind == 'classmethod' and p.arg not in ct.types \
                     and p.arg not in ct.pins:
                 vals[p.arg] = v = smt.mk_ref(fi.cls.cid)
